@@ -85,6 +85,45 @@ def list_case(n_ops, first, twins=False):
     return h
 
 
+def transitive_case():
+    """a transitive list field written in every way: the element brings consequences that are written back into the very
+    field that is being written; all ways of writing must end with the same field and the same relations"""
+
+    def h(ctx):
+        W.fresh_graph()
+        o0, o1, o2 = (W.Org(name=i) for i in range(3))
+        o1.sub_org_of.append(o2)
+        pre = ctx.choice("pre", 2)
+        if pre:
+            o0.sub_org_of.append(o2)  # the field may already hold the consequence
+        how = ["assign", "iadd", "append", "extend", "insert"][ctx.choice("how", 5)]
+        v = {"no-exception": True}
+        try:
+            if how == "assign":
+                o0.sub_org_of = ([o2] if pre else []) + [o1]
+            elif how == "iadd":
+                o0.sub_org_of += [o1]
+            elif how == "append":
+                o0.sub_org_of.append(o1)
+            elif how == "extend":
+                o0.sub_org_of.extend([o1])
+            else:
+                o0.sub_org_of.insert(0, o1)
+        except Exception as e:
+            v["no-exception"] = False
+            ctx.observe("raised %s" % type(e).__name__)
+            return v
+        got = sorted({index_of([o0, o1, o2], x) for x in o0.sub_org_of})
+        rel = {(e.wrapped_field.name.lstrip("_"), index_of([o0, o1, o2], e.source.instance), index_of([o0, o1, o2], e.target.instance)) for e in SymbolGraph()._instance_graph.edges()}
+        ctx.observe(how, pre, got)
+        ctx.note("nonempty", 1)
+        v["field-holds-the-element-and-its-consequences"] = got == [1, 2]
+        v["every-element-of-the-field-is-related-and-inferred"] = ("sub_org_of", 0, 1) in rel and ("sub_org_of", 0, 2) in rel
+        return v
+
+    return h
+
+
 def set_case(n_ops, first):
     """o.members : Set[Human] (Member, inverse MemberOf); model = a plain set"""
 
@@ -157,6 +196,7 @@ def cases(tier, seed):
     for f in [("extend", (0, 2)), ("assign", (0, 2)), ("iadd", (2, 0)), ("append", 2), ("insert", 0, 2)]:
         nm = "list field with value-equal twins|first=%s" % ":".join(map(str, f))
         cs.append(Case(nm + "|ops=%d" % n, list_case(n, [f], twins=True), key=nm, reset=W.world_reset, validate=0, timeout=900, max_paths=400000, cex_grace=10**9))
+    cs.append(Case("transitive list field written in every way", transitive_case(), key="transitive", reset=W.world_reset, validate=0, timeout=300))
     for f in SET_FIRST:
         nm = "set field|first=%s" % ":".join(map(str, f))
         cs.append(Case(nm + "|ops=%d" % n, set_case(n, [f]), key=nm, reset=W.world_reset, validate=0, timeout=900, max_paths=400000, cex_grace=10**9))
@@ -168,7 +208,7 @@ def describe(tier):
     return dict(
         rule="initial contents (ordered list with repetitions / set over a pool of 3 elements, a bounded symbolic choice) followed by %d write operations chosen symbolically from "
         "{assign a new collection, x.f = x.f, += / |=, append, extend, insert (front / end / negative index), item assignment, add, update} with operands from the pool, on a "
-        "list-valued (Human.member_of; also with a pool in which two distinct elements compare equal and hash alike) and a set-valued (Org.members) managed field; the field must equal the same operations applied to a plain list / set (order and "
+        "list-valued (Human.member_of; also with a pool in which two distinct elements compare equal and hash alike) and a set-valued (Org.members) managed field, and a transitive list field (the written element brings consequences that go into the same field); the field must equal the same operations applied to a plain list / set (order and "
         "multiplicity for lists) and every element of the field must be related in the symbol graph with its inverse inferred. non-trivial = non-empty final contents" % n,
         bounds=dict(operations=n, pool=3, initial_lengths="<= 3"),
         outside=["extend / update with the field itself as argument (does not terminate on the unchanged tree; reported in DESIGN.md, not run)", "remove / pop / clear / del (not named by the property)", "more than %d operations" % n],
